@@ -29,6 +29,12 @@ Structured: a seventh of the cases let the event carry a STRUCTURED parameter - 
          `match UtteranceBotAction(<arguments>).Finished(<parameters>)`; every flow mentions some top-level parameters and some members of the
          structure (or not the structure at all). Score = 0.9^(unmentioned top-level parameters + unmentioned members on every nesting
          level) x priority: the flow that mentions more members beats the one that mentions fewer, equal counts are ties.
+Groups   : a third of the direct / wrapped / chained cases let competitors WAIT WITH A GROUP of event matches instead of one plain match - an or-group
+         (`match Ev(a=1) or Z()`, 2-3 alternatives, the fitting one at any position, the others other events or an Ev pattern with an altered
+         value), an and-group (`match Ev(a=1) and Z()`, the other members are fed before Ev), a nested group (`(Ev(..) and Z()) or Z()`,
+         `(Ev(..) or Z()) and Z()`, `Ev(..) or (Z() and Z())`, ...) or `when Ev(..) / or when Z()` - so that the head that reaches the action was
+         forked and merged again. The score of such a flow is the score of the alternative that matched the event (its `Ev(..)` member: 0.9^unmentioned
+         x priority); the usual rule applies: it loses against a more specific competitor of its loop and wins against a less specific one.
 """
 import itertools
 import json
@@ -83,11 +89,21 @@ RULE = (
     "structure, start order drawn, so that only the number of mentioned MEMBERS separates them. Enumerated: 592 structured cases (dict / list / set of 2-3 scalars and 2-3 start "
     "arguments: every pair 'k members mentioned' against 'fewer members mentioned' down to the empty container; 6 pairs that differ only inside a nested container; all / one "
     "top-level parameter mentioned x both start orders x both tie-breaks x with / without a third flow that mentions all top-level parameters but not the structure). "
+    "A third of the direct / wrapped / chained cases are GROUP cases: flow 0 or flow 1 (each further flow one time in three) WAITS WITH A GROUP of event matches in place of its plain "
+    "`match Ev(..)` (wrapped: in the inner flow; chained: in the flow or its own helper, never in a shared helper) - an or-group `match Ev(..) or Z()` (half of the groups; 2-3 alternatives, the "
+    "`Ev(..)` member at a drawn position, every other alternative another event Z<i>Q<k> that only this flow waits for or, one time in four, an `Ev(p=<altered value>)` that never fits), "
+    "an and-group `match Ev(..) and Z() [and Z()]` (its other members are fed before Ev), a nested group (outer and inner operator drawn from or / and, the `Ev(..)` member inside the "
+    "inner group or next to it, members in drawn order), or `when Ev(..) / or when Z()` with an assignment in every branch and the action behind the construct - so that the head that "
+    "reaches the action was forked and merged again; forced shape of every group case: the other one of flows 0 / 1 shares loop and priority, starts another action and mentions 1-2 "
+    "parameters MORE (two times out of three) or FEWER than the group flow, itself a plain match (three times out of four) or a group. An enumerated family placed first (432 cases) sets each "
+    "of 12 group forms (or-group with the fitting alternative first / last / in the middle / next to a non-fitting Ev alternative, and-group in both orders, four nestings, when / or when in both "
+    "orders) for a flow that mentions (a) against a plain competitor that mentions (a,b), for a flow that mentions (a,b) against a plain competitor that mentions (a), and for (a) against an "
+    "or-group competitor that mentions (a,b); direct / wrapped / group in an own helper behind an `await` link; both start orders, both tie-break outcomes. "
     "Non-trivial = some loop has >=3 fitting flows with >=2 distinct scores, or an exact tie between different "
     "actions, or >=2 loops with fitting flows; chained: a loop with >=2 different actions where the winner is determined (or narrowed to the flows with the best match on the event) and somebody loses or an exact tie "
     "between different actions exists; instances cases: at some event two instances of the reactor fit (older and newer), or an instance and another "
     "candidate meet in one loop; structured cases: the usual rule, or two flows with different actions that differ only in the members of the structure they mention and of "
-    "which exactly one may win; distinct by case."
+    "which exactly one may win; group cases: also a loop in which a fitting group flow meets a fitting flow with another action and a strictly different score on the event; distinct by case."
 )
 ASSUMPTIONS = [
     "scores within 1e-9 are treated as tied and any tied flow may win (validity predicate)",
@@ -103,6 +119,13 @@ ASSUMPTIONS = [
     "parameter': it is counted as ONE parameter (reading A), as all its members (reading B) and - start arguments of an action, which are no parameter of the Finished event - as "
     "nothing (reading C); a flow that is top-scoring under any of these readings may win (label structured-unmentioned-structure-readings-disagree)",
     "structured cases: expected lists are prefixes of the received list (position-wise and in-order reading of the list rule coincide); numbers are written as in the event (no 1 vs 1.0)",
+    "group cases: a flow that waits with `match A or B`, `match A and B`, a nested group or `when A / or when B` (docs/colang_2/language_reference/event-generation-and-matching.rst "
+    "'Event Grouping', flow-control.rst 'Event Branching (when/or when/else)') reacts to Ev through the member that matched Ev; its match is exactly as specific as that member "
+    "(0.9^unmentioned parameters of the `Ev(..)` member x priority of the flow) - the statement ranks flows by 'their match', it makes no exception for grouped matches; the other "
+    "alternatives (events that never arrive, Ev patterns with an altered value) do not match and contribute nothing",
+    "group cases: every group has exactly ONE member that can fit Ev (two alternatives of different specificity that both fit the same event are not generated: which of them counts is "
+    "not documented); the other members of an and-group are events only this flow waits for, fed BEFORE Ev (no action is started on them - checked), so that the match on Ev completes "
+    "the group and the flow reaches its action in the same processing step as its competitors; a group flow whose `Ev(..)` member has an altered value does not fit and must stay untouched",
     "an action is identical to another iff type and argument values are equal; the order in which keyword arguments are written is not part of an action",
     "whether intensity=1 and intensity=1.0 are the same argument value is NOT specified (Colang expressions say 1 == 1.0, event matching treats them as different, "
     "C04 lists the pair as unspecified): such pairs are generated, the by-value reading is tried first and, if the outcome contradicts it, the by-value-and-type "
@@ -260,6 +283,202 @@ def _respell(draw, flows):
                 flows[j]["loop"] = f0["loop"]
 
 
+# ------------------------------------------------------------------------------------------------
+# competitors that wait with a GROUP of event matches: the head that reaches the action was forked and merged again
+#
+# group = {"op": "or" | "and" | "when", "items": [item, ...]}; item = "EV" (the flow's own match on Ev: exactly one in the tree),
+# {"z": k} (another event Z<i>Q<k> that only this flow waits for), {"wrong": p} (Ev with an altered value of parameter p: never fits;
+# only as an alternative of an or-group / `or when`) or a nested {"op": "or" | "and", ...}. `when` = `when <item> / or when <item> ...`.
+
+
+def _group_text(node, ev, i, top=False):
+    if node == "EV":
+        return ev
+    if "z" in node:
+        return f"Z{i}Q{node['z']}()"
+    if "wrong" in node:
+        return f"Ev({node['wrong']}={PARAMS[node['wrong']] + 10})"
+    inner = f" {node['op']} ".join(_group_text(x, ev, i) for x in node["items"])
+    return inner if top else "(" + inner + ")"
+
+
+def _wait_lines(f, i):
+    """The statement(s) with which flow i waits for the event: a plain `match Ev(..)`, a match group, or `when .. / or when ..`."""
+    ev = f"Ev({_ev_args(f)})"
+    g = f.get("group")
+    if not g:
+        return [f"  match {ev}"]
+    if g["op"] == "when":
+        lines = []
+        for k, item in enumerate(g["items"]):
+            lines += [f"  {'when' if k == 0 else 'or when'} {_group_text(item, ev, i)}", f"    $g{i} = {k}"]
+        return lines
+    return ["  match " + _group_text(g, ev, i, top=True)]
+
+
+def _group_satisfy(node, i):
+    """Events that complete a sub-pattern without the EV leaf (None: cannot be completed)."""
+    if node == "EV" or "wrong" in node:
+        return None
+    if "z" in node:
+        return [f"Z{i}Q{node['z']}"]
+    parts = [_group_satisfy(x, i) for x in node["items"]]
+    if node["op"] == "and":
+        return None if any(p is None for p in parts) else [e for p in parts for e in p]
+    return next((p for p in parts if p is not None), None)
+
+
+def _group_prefeed(node, i):
+    """The events that have to arrive BEFORE Ev so that the match on Ev completes the whole pattern: the other members of every
+    and-group on the way from the root to the EV leaf (alternatives of or-groups are never fed). None: no EV leaf below node."""
+    if node == "EV":
+        return []
+    if not isinstance(node, dict) or "items" not in node:
+        return None
+    for k, item in enumerate(node["items"]):
+        r = _group_prefeed(item, i)
+        if r is None:
+            continue
+        if node["op"] == "and":
+            for j, sib in enumerate(node["items"]):
+                if j != k:
+                    need = _group_satisfy(sib, i)
+                    if need is None:
+                        raise RuntimeError(f"harness: and-group member {sib} cannot be completed beforehand")
+                    r = r + need
+        return r
+    return None
+
+
+def _group_kinds(g):
+    """Labels: the operators of the group, whether it is nested."""
+    if g["op"] == "when":
+        return {"group-when-or-when"}
+    ops, nested = set(), False
+    todo = [g]
+    while todo:
+        n = todo.pop()
+        ops.add(n["op"])
+        for x in n["items"]:
+            if isinstance(x, dict) and "items" in x:
+                nested = True
+                todo.append(x)
+    return {f"group-{op}" for op in ops} | ({"group-nested"} if nested else set())
+
+
+def _grp(case, i):
+    """The group flow i waits with (None: plain match; a flow behind a SHARED helper does not match the event itself)."""
+    form = (case.get("forms") or [None] * (i + 1))[i]
+    if form and form["kind"] == "shared":
+        return None
+    return case["flows"][i].get("group")
+
+
+@st.composite
+def _group(draw):
+    form = draw(st.sampled_from(["or", "or", "or", "and", "nested", "nested", "when"]))
+    counter = [0]
+
+    def z():
+        counter[0] += 1
+        return {"z": counter[0] - 1}
+
+    def leaf(op):
+        return {"wrong": draw(st.sampled_from(["a", "b", "c"]))} if op != "and" and draw(st.integers(0, 3)) == 0 else z()
+
+    def flat(op, with_ev):
+        if with_ev:
+            items = [leaf(op) for _ in range(draw(st.sampled_from([1, 1, 2])))]
+            items.insert(draw(st.integers(0, len(items))), "EV")
+        else:
+            items = [z(), leaf(op)][:: draw(st.sampled_from([1, -1]))]  # can be completed beforehand (member of an and-group)
+        return {"op": op, "items": items}
+
+    if form != "nested":
+        return flat(form, True)
+    outer = draw(st.sampled_from(["or", "and"]))
+    inner_op = draw(st.sampled_from(["or", "and"]))
+    ev_inside = draw(st.booleans())
+    items = [flat(inner_op, ev_inside)] + [leaf(outer) for _ in range(draw(st.sampled_from([0, 1, 1]) if not ev_inside else st.just(1)))]
+    if not ev_inside:
+        items.append("EV")
+    return {"op": outer, "items": list(draw(st.permutations(items)))}
+
+
+def _group_shape(draw, flows, forms=None):
+    """Forced shape: flow g (0 or 1) waits with a group; the other one of the two is a plain-match (or, one time in four, another group)
+    competitor in the same loop with the same priority and another action that mentions 1-2 parameters MORE (two times out of three: the
+    group flow must lose) or FEWER (the group flow must win). Each further flow waits with a group one time in three."""
+    g = draw(st.integers(0, 1))
+    o = 1 - g
+    fg = flows[g] = dict(flows[g], wrong=None, group=draw(_group()))
+    more = draw(st.integers(0, 2)) != 0
+    m = list(fg["mentioned"])
+    if more and len(m) == 3:
+        m.remove(draw(st.sampled_from(m)))
+    if not more and not m:
+        m = [draw(st.sampled_from(["a", "b", "c"]))]
+    fg["mentioned"] = sorted(m)
+    if more:
+        rest = list(draw(st.permutations([k for k in "abc" if k not in m])))
+        mo = sorted(m + rest[: draw(st.sampled_from([1, 1, 2]))])
+    else:
+        mo = sorted(list(draw(st.permutations(m)))[draw(st.sampled_from([1, 1, 2])):])
+    fo = flows[o] = dict(flows[o], mentioned=mo, wrong=None, priority=fg["priority"], loop=fg["loop"])
+    fo.pop("group", None)
+    if draw(st.integers(0, 3)) == 0:
+        fo["group"] = draw(_group())
+    if _aid(fo, False) == _aid(fg, False):
+        fo["action"] = (fg["action"] + 1 + draw(st.integers(0, len(ACTIONS) - 2))) % len(ACTIONS)
+    for j in range(2, len(flows)):
+        if draw(st.integers(0, 2)) == 0:
+            flows[j] = dict(flows[j], group=draw(_group()))
+    if forms is not None:
+        for j in (g, o):
+            if forms[j]["kind"] == "shared":
+                forms[j] = {"kind": "own", "links": forms[j]["links"]}
+
+
+def _enumerate_groups():
+    """Every way of waiting with a group (or-group with the fitting alternative first / last / in the middle / next to an Ev alternative
+    that does not fit, and-group, the four nestings, `when .. / or when ..`) for a flow that mentions ONE parameter of the event against
+    a plain-match competitor that mentions two (the group flow must lose), for a flow that mentions TWO against a plain competitor that
+    mentions one (the group flow must win) and against another or-group flow that mentions two; direct / wrapped / behind an own helper
+    and an `await` link; both start orders, both tie-break outcomes."""
+    Z = lambda k: {"z": k}  # noqa: E731
+    forms = [
+        {"op": "or", "items": ["EV", Z(0)]},
+        {"op": "or", "items": [Z(0), "EV"]},
+        {"op": "or", "items": [Z(0), "EV", Z(1)]},
+        {"op": "or", "items": ["EV", {"wrong": "a"}]},
+        {"op": "and", "items": ["EV", Z(0)]},
+        {"op": "and", "items": [Z(0), "EV"]},
+        {"op": "or", "items": [{"op": "and", "items": ["EV", Z(0)]}, Z(1)]},
+        {"op": "and", "items": [{"op": "or", "items": ["EV", Z(0)]}, Z(1)]},
+        {"op": "or", "items": ["EV", {"op": "and", "items": [Z(0), Z(1)]}]},
+        {"op": "or", "items": [Z(2), {"op": "and", "items": [Z(0), "EV"]}]},
+        {"op": "when", "items": ["EV", Z(0)]},
+        {"op": "when", "items": [Z(0), "EV"]},
+    ]
+    rel = [(["a"], ["a", "b"], None), (["a", "b"], ["a"], None), (["a"], ["a", "b"], forms[0])]
+    for grp in forms:
+        for mg, mo, og in rel:
+            for variant in ("direct", "wrapped", "chained"):
+                for order in (0, 1):
+                    for choice in (0, 1):
+                        fl = [
+                            {"mentioned": mg, "wrong": None, "priority": None, "action": 0, "loop": None, "group": grp},
+                            {"mentioned": mo, "wrong": None, "priority": None, "action": 1, "loop": None},
+                        ]
+                        if og:
+                            fl[1]["group"] = og
+                        case = {"flows": _cp(fl[:: 1 - 2 * order]), "wrapped": variant == "wrapped", "stage2": None, "choices": [choice]}
+                        if variant == "chained":
+                            fo = [{"kind": "own", "links": [{"how": "await", "priority": None}]}, {"kind": "direct"}]
+                            case.update(forms=fo[:: 1 - 2 * order], helpers=[])
+                        yield case
+
+
 LINK_PRIOS = [None, None, 1.0, 0.5, 0.1]
 
 
@@ -308,7 +527,7 @@ def _first_match_shape(draw, flows, forms, helpers):
 
 
 @st.composite
-def _chain_case(draw, flows):
+def _chain_case(draw, flows, grouped=False):
     """Every flow has its own depth: `direct` (matches Ev itself), `own` (a helper flow h<i> matches Ev; the flow reaches its
     action through 1-2 links, each a `start X` + `match X.Finished()` by flow name or an `await X`, each level with its own
     priority) or `shared` (same, but the innermost helper hs<k> is started by main and shared by several competitors)."""
@@ -356,6 +575,8 @@ def _chain_case(draw, flows):
                     forms[i] = _cp(forms[0])
                     j = draw(st.integers(0, len(forms[i]["links"]) - 1))
                     forms[i]["links"][j]["priority"] = draw(st.sampled_from([None, 0.5, 0.1]))
+    if grouped:
+        _group_shape(draw, flows, forms)
     return {
         "flows": flows,
         "wrapped": False,
@@ -379,8 +600,12 @@ def _case(draw):
         return draw(_structured_case(flows))
     if kind >= 10:
         return draw(_instances_case(flows))
+    # a third of the direct / wrapped / chained cases: some competitors wait with a GROUP of event matches (forked and merged head)
+    grouped = draw(st.integers(0, 2)) == 0
     if kind >= 7:
-        return draw(_chain_case(flows))
+        return draw(_chain_case(flows, grouped))
+    if grouped:
+        _group_shape(draw, flows)
     wrapped = draw(st.integers(0, 3)) == 0
     stage2 = None
     if not wrapped and draw(st.integers(0, 2)) == 0:
@@ -409,6 +634,7 @@ def enumerate_cases(tier):
     (a) its own proper prefixes and (b) a copy that differs in the priority of one link; both start orders, both tie-break
     outcomes, three (mentioned, priority) settings of the match on the external event, with and without a third, less
     specific direct competitor."""
+    yield from _enumerate_groups()
     hows = [["name"], ["await"], ["name", "name"], ["name", "await"], ["await", "name"], ["await", "await"]]
     bases = [(["a", "b", "c"], None), (["a"], 0.5), ([], None)]
     for mentioned, p in bases:
@@ -1174,9 +1400,10 @@ def _base(case, i):
     return case["flows"][i]
 
 
-def _match_ev(f):
-    args = ", ".join(f"{k}={PARAMS[k] + (10 if k == f['wrong'] else 0)}" for k in f["mentioned"])
-    return ([f"  priority {f['priority']}"] if f["priority"] is not None else []) + [f"  match Ev({args})"]
+def _match_ev(f, i=None):
+    """Priority statement + the statement that waits for Ev (i given: flow i may wait with a group of event matches)."""
+    wait = _wait_lines(f, i) if i is not None else [f"  match Ev({_ev_args(f)})"]
+    return ([f"  priority {f['priority']}"] if f["priority"] is not None else []) + wait
 
 
 def _chain_program(case):
@@ -1187,10 +1414,10 @@ def _chain_program(case):
         deco = [f'@loop("{f["loop"]}")'] if f["loop"] else []
         tail = [f"  start {_action_text(f)}", f"  match Never{i}()", ""]
         if form["kind"] == "direct":
-            lines += deco + [f"flow c{i}"] + _match_ev(f) + tail
+            lines += deco + [f"flow c{i}"] + _match_ev(f, i) + tail
             continue
         if form["kind"] == "own":
-            lines += [f"flow h{i}"] + _match_ev(f) + [""]
+            lines += [f"flow h{i}"] + _match_ev(f, i) + [""]
             below, started = f"h{i}", False
         else:
             below, started = f"hs{form['helper']}", True
@@ -1283,12 +1510,12 @@ def program(case):
         return _chain_program(case)
     lines = []
     for i, f in enumerate(case["flows"]):
-        args = ", ".join(f"{k}={PARAMS[k] + (10 if k == f['wrong'] else 0)}" for k in f["mentioned"])
+        wait = _wait_lines(f, i)
         act = _action_text(f)
         deco = [f'@loop("{f["loop"]}")'] if f["loop"] else []
         prio = [f"  priority {f['priority']}"] if f["priority"] is not None else []
         if case["wrapped"]:
-            lines += [f"flow inner{i}"] + prio + [f"  match Ev({args})", ""]
+            lines += [f"flow inner{i}"] + prio + wait + [""]
             lines += deco + [f"flow c{i}", f"  await inner{i}", f"  start {act}", f"  match Never{i}()", ""]
         else:
             second = []
@@ -1296,9 +1523,9 @@ def program(case):
                 t2, k2, v2 = ACTIONS[case["stage2"][i]]
                 second = ["  match $a.Finished()", f'  start {t2}({k2}="{v2}2")']
             if (case.get("via_when") or [False] * len(case["flows"]))[i]:
-                lines += deco + [f"flow c{i}"] + prio + [f"  match Ev({args})", f"  when {act}", "    send WhenDone()", f"  match Never{i}()", ""]
+                lines += deco + [f"flow c{i}"] + prio + wait + [f"  when {act}", "    send WhenDone()", f"  match Never{i}()", ""]
             else:
-                lines += deco + [f"flow c{i}"] + prio + [f"  match Ev({args})", f"  start {act} as $a"] + second + [f"  match Never{i}()", ""]
+                lines += deco + [f"flow c{i}"] + prio + wait + [f"  start {act} as $a"] + second + [f"  match Never{i}()", ""]
     if case.get("stop") is not None:
         lines += ['@loop("supervision")', "flow supervisor", "  match Ev()", f'  send StopFlow(flow_id="c{case["stop"]}")', "  match NeverSup()", ""]
     lines.append("flow main")
@@ -1350,6 +1577,14 @@ def _prop(case):
     smh.install()
     smh.CHOOSER.reset(case["choices"])
     state = smh.init(text)
+    grp = [_grp(case, i) for i in range(len(flows))]
+    prefed = []
+    for i, g in enumerate(grp):
+        # and-groups: the other members arrive first (events nobody else waits for), so that the match on Ev completes the group
+        for name in (_group_prefeed(g, i) or []) if g else []:
+            prefed.append(name)
+            if any(_is_start(e) for e in smh.feed(state, smh.ev(name))):
+                raise RuntimeError(f"harness: an action was started on the preparatory event {name}")
     smh.CHOOSER.reset(case["choices"])
     out = smh.feed(state, smh.ev("Ev", **PARAMS))
     starts = Counter()
@@ -1367,15 +1602,20 @@ def _prop(case):
         groups.setdefault(key or "main", []).append(i)
     chained = bool(case.get("forms"))
     sc = [score(_base(case, i)) for i in range(len(flows))]  # score of the match on the external event
+    # a flow that waits with a group: the alternative that matched the event is its `Ev(..)` member, whose score is the score above
+    waits = lambda i: (" waits with `" + " / ".join(x.strip() for x in _wait_lines(flows[i], i) if not x.startswith("    ")) + "`") if grp[i] else ""  # noqa: E731
+    group_labels = set()
     chains = [_chain(case, i) for i in range(len(flows))] if chained else None
     if chained:
         desc = "; ".join(
-            f"c{i}[loop={f['loop'] or 'main'} chain={_chain_desc(case, i)} action={_adesc(f)}]" for i, f in enumerate(flows)
+            f"c{i}[loop={f['loop'] or 'main'} chain={_chain_desc(case, i)} action={_adesc(f)}{waits(i)}]" for i, f in enumerate(flows)
         ) + " chained (name/await = score of the match on the helper's Finished event, times the priority of the matching flow)"
     else:
         desc = "; ".join(
-            f"c{i}[loop={f['loop'] or 'main'} score={score(f):.4g} action={_adesc(f)}]" for i, f in enumerate(flows)
+            f"c{i}[loop={f['loop'] or 'main'} score={score(f):.4g} action={_adesc(f)}{waits(i)}]" for i, f in enumerate(flows)
         ) + (" wrapped" if case["wrapped"] else "")
+    if prefed:
+        desc += f" | fed before Ev: {', '.join(prefed)}"
     ambiguous = False
     chain_labels = set()
     observed = {i: (status.get(i) or ["missing"])[-1] for i in range(len(flows))}
@@ -1455,6 +1695,18 @@ def _prop(case):
             if i not in running and observed[i] != "stopped":
                 raise Violation("loser-not-stopped", f"{desc}: loop {g}: losing flow c{i} is {observed[i]}")
         expected_starts_options.append(match[0][0])
+        for i in fit:
+            if not grp[i]:
+                continue
+            for j in fit:
+                if j == i or aid[i] == aid[j] or abs(sc[i] - sc[j]) <= 1e-9:
+                    continue
+                # a forked-and-merged head competes with a flow whose match on the event is strictly more / less specific
+                other = "group" if grp[j] else "plain-match"
+                group_labels.add(f"group-flow-against-more-specific-{other}-competitor" if sc[j] > sc[i] else f"group-flow-against-less-specific-{other}-competitor")
+                group_labels.add("group-flow-wins" if i in running else "group-flow-loses")
+                if not ambiguous:
+                    nt = True
         if chained:
             if not ambiguous and len({aid[i] for i in fit}) >= 2 and (len(tied) < len(fit) or len(options) >= 2):
                 nt = True
@@ -1548,6 +1800,13 @@ def _prop(case):
             ("priority-on-internal-match", any(link["priority"] not in (None, 1.0) for link in links)),
             ("chain-winner-ambiguous", ambiguous),
         ] if on]
+    if any(grp):
+        labels.append("waits-with-group")
+        labels += sorted(set().union(*[_group_kinds(g) for g in grp if g]) | group_labels)
+        if prefed:
+            labels.append("group-and-members-fed-before")
+        if any(g and sc[i] == 0 for i, g in enumerate(grp)):
+            labels.append("group-flow-does-not-fit")
     if any(_base(case, i)["priority"] not in (None, 1.0) for i in range(len(flows))):
         labels.append("priority")
     if any(_base(case, i)["wrong"] for i in range(len(flows))):
